@@ -88,6 +88,22 @@ fn exec(ctx: &mut Ctx, arena: &Arena, h: &[u8], kinds: &[u16], part: &'static st
     }
     want.push(Rec { name: "iter.next", val: if refuse { Val::Panic } else { Val::E(0) } });
     check(ctx, part, "walk", &recs, &want);
+    // the end tag has no getter: cast every walked tag of type 0 and read it through the typed accessors
+    if !refuse {
+        for it in items.iter().filter(|i| i.typ == 0 && i.size == 8) {
+            let o = 16 + it.off;
+            let r = ctx.call("cast::<EndHeaderTag> + accessors", || {
+                hd_.iter().find(|t| (*t) as *const multiboot2_common::DynSizedStructure<multiboot2_header::HeaderTagHeader> as *const u8 as usize == p as usize + o).map(|t| {
+                    let e = t.cast::<multiboot2_header::EndHeaderTag>();
+                    (e.typ() as u16, e.flags() as u16, e.size())
+                })
+            });
+            match r {
+                Out::Val(Some(got)) if got == (0, it.flags, 8) => ctx.class("decoded"),
+                other => ctx.violation(&format!("c11/{}/End/accessors", part), || format!("end tag at offset {}: typed accessors give (type, flags, size) = {:?}, stored (0, {}, 8)", o, other.val(), it.flags)),
+            }
+        }
+    }
     // adapters the iterator type may override
     if !refuse {
         let wanto: Vec<usize> = items.iter().map(|i| 16 + i.off).collect();
@@ -361,6 +377,27 @@ fn run(ctx: &mut Ctx) {
                         });
                     }
                 }
+            }
+        }
+    }
+    // headers that do not end in an end tag: the wanted tag is the very last thing in the header
+    ctx.bound("no_end_tag", "per kind K: headers [K], [other, K] and [other, other, K] without an end tag (K ends exactly at the header length), both architectures; all 10 getters and the walk");
+    for kind in 1..=10u16 {
+        for arch in [0u32, 4] {
+            for front in 0..3usize {
+                let other = if kind == hd::FRAMEBUFFER { hd::ENTRY } else { hd::FRAMEBUFFER };
+                let mut tags: Vec<Vec<u8>> = (0..front).map(|i| hd::sample(if i == 0 { other } else { hd::RELOCATABLE }, 3, 0)).collect();
+                if front == 2 && kind == hd::RELOCATABLE {
+                    tags[1] = hd::sample(hd::ADDRESS, 3, 0);
+                }
+                tags.push(hd::sample(kind, 1, if kind == hd::INFO_REQ { 0 } else { 2 }));
+                let h = hd::header(arch, &tags, 0xF7);
+                let describe = || J::obj().set("part", "no_end_tag").set("kind", hd::kind_name(kind)).set("tags_in_front", front).set("architecture", arch).set("header", J::hex(&h));
+                ctx.leaf(describe, |ctx| {
+                    ctx.state(hash::hash_bytes(&h));
+                    ctx.nontrivial();
+                    exec(ctx, &arena, &h, &getters, "no_end_tag");
+                });
             }
         }
     }
